@@ -234,6 +234,26 @@ structure Handler where
   frame_count : Int
 deriving Repr, DecidableEq
 
+/-- A fiber that is NOT running (a caller waiting for the running one, a suspended one, a new one, a finished one): what is parked of it
+when control leaves it, and what `load_fiber`/`unload_fiber` read and write of a fiber other than the running one. -/
+structure FiberRec where
+  stack : List Value
+  handlers : List Handler
+  /-- `frames.len()` (0 = finished) -/
+  frames : Int
+  /-- `frames.last().ip`: the resume point -/
+  frameIp : Int
+  returnIp : Option Int
+  returnValue : Value
+  errorIp : Option (Int × Int)
+  /-- `caller`: the fiber that is waiting for this one -/
+  caller : Option Nat
+  /-- the first instruction of `frames[0].closure` -/
+  entryIp : Int
+  /-- `frames[0].closure`, as a value -/
+  closure0 : Value
+deriving Repr
+
 structure Vm where
   stack : List Value
   ip : Int
@@ -255,6 +275,17 @@ structure Vm where
   errorIp : Option (Int × Int) := none
   /-- every `close_upvalues(index)` so far, with the height of the value stack at that moment -/
   closed : List (Int × Int) := []
+  /-- `Vm::fiber`: the running fiber (a fiber is named by a number; `stack`, `handlers`, `frames`, `frameIp`, `returnIp`, `returnValue`,
+  `errorIp` above and `caller`, `entryIp`, `closure0` below are ITS components - what `active_fiber()` denotes in a checked build) -/
+  curId : Option Nat := some 0
+  /-- `Vm::unsafe_fiber` (what `active_fiber()` denotes in an unchecked build; `none` = null) -/
+  unsafeId : Option Nat := some 0
+  /-- the running fiber's `caller` -/
+  caller : Option Nat := none
+  entryIp : Int := 0
+  closure0 : Value := .None
+  /-- every other fiber, by its number -/
+  parked : List (Nat × FiberRec) := []
 deriving Repr
 
 def Vm.pop (vm : Vm) : M (Value × Vm) :=
@@ -316,6 +347,55 @@ def errorFromValue (v : Value) : Err := ⟨"uncaught", "", [reprStr v]⟩
 /-- `try_handle_error(err)`: the error is handed to the exception machinery; what it answers is part of the state. -/
 def Vm.raise (vm : Vm) (e : Err) : M (Except Err Unit × Vm) :=
   .ok (vm.handled, { vm with raised := vm.raised ++ [e] })
+
+/-! ### fibers: the running one is inline in `Vm`, the others are parked -/
+
+def Vm.currentRec (vm : Vm) : FiberRec :=
+  { stack := vm.stack, handlers := vm.handlers, frames := vm.frames, frameIp := vm.frameIp, returnIp := vm.returnIp,
+    returnValue := vm.returnValue, errorIp := vm.errorIp, caller := vm.caller, entryIp := vm.entryIp, closure0 := vm.closure0 }
+
+def Vm.withRec (vm : Vm) (r : FiberRec) : Vm :=
+  { vm with stack := r.stack, handlers := r.handlers, frames := r.frames, frameIp := r.frameIp, returnIp := r.returnIp,
+            returnValue := r.returnValue, errorIp := r.errorIp, caller := r.caller, entryIp := r.entryIp, closure0 := r.closure0 }
+
+def lookupFiber (ps : List (Nat × FiberRec)) (id : Nat) : Option FiberRec := (ps.find? (·.1 == id)).map (·.2)
+
+def eraseFiber (ps : List (Nat × FiberRec)) (id : Nat) : List (Nat × FiberRec) := ps.filter (·.1 != id)
+
+/-- `fiber.borrow()` for a fiber given by its number: the running one or a parked one; a number that names no fiber is a dangling
+pointer (panic here). -/
+def Vm.fiberRec (vm : Vm) (id : Nat) : M FiberRec :=
+  if vm.curId = some id then .ok vm.currentRec
+  else match lookupFiber vm.parked id with
+    | some r => .ok r
+    | none => .panic
+
+/-- `self.fiber.replace(new)` / `self.fiber = new`: the fiber designated so far is parked with everything it owns, the new one's
+components become the running ones.  Answers the old designation. -/
+def Vm.replaceFiber (vm : Vm) (new : Option Nat) : M (Option Nat × Vm) :=
+  let parked1 := match vm.curId with
+    | some c => (c, vm.currentRec) :: eraseFiber vm.parked c
+    | none => vm.parked
+  match new with
+  | none => .ok (vm.curId, { vm with curId := none, parked := parked1 })
+  | some n =>
+    match lookupFiber parked1 n with
+    | some r => .ok (vm.curId, { (vm.withRec r) with curId := some n, parked := eraseFiber parked1 n })
+    | none => .panic
+
+/-- `<fiber>.borrow_mut().caller = c` for a fiber given by its number. -/
+def Vm.setCallerOf (vm : Vm) (id : Nat) (c : Option Nat) : M Vm :=
+  if vm.curId = some id then .ok { vm with caller := c }
+  else match lookupFiber vm.parked id with
+    | some r => .ok { vm with parked := (id, { r with caller := c }) :: eraseFiber vm.parked id }
+    | none => .panic
+
+/-- `ObjFiber::is_new` of the running fiber: one frame, standing at the first instruction of its closure. -/
+def Vm.isNew (vm : Vm) : Bool := decide (vm.frames = 1) && decide (vm.frameIp = vm.entryIp)
+def FiberRec.isNew (r : FiberRec) : Bool := decide (r.frames = 1) && decide (r.frameIp = r.entryIp)
+/-- `ObjFiber::has_finished`. -/
+def Vm.hasFinished (vm : Vm) : Bool := decide (vm.frames = 0)
+def FiberRec.hasFinished (r : FiberRec) : Bool := decide (r.frames = 0)
 
 /-- `==` on values as far as they are modelled: numbers by IEEE equality, booleans and nil structurally, everything else by identity. -/
 def Value.eq : Value → Value → Bool
